@@ -265,8 +265,13 @@ func (o sobs) fields() []string {
 // ---------------------------------------------------------------- invariants
 
 func (w *world) invariants(ctx sdk.Context, out *c.Out, where string) {
-	ek := w.tApp.GetEarnKeeper()
-	sk := w.tApp.GetSavingsKeeper()
+	runInvariants(w.tApp, ctx, out, where)
+}
+
+// runInvariants evaluates the registered invariants of earn (3) and savings (2) on the real state
+func runInvariants(tApp app.TestApp, ctx sdk.Context, out *c.Out, where string) {
+	ek := tApp.GetEarnKeeper()
+	sk := tApp.GetSavingsKeeper()
 	type inv struct {
 		name string
 		f    sdk.Invariant
@@ -782,4 +787,21 @@ func main() {
 	w0.corpus(out)
 	pool <- w0
 	kapp.RunSeqs(n, workers, r, func() *world { return <-pool }, func(w *world, seq int, r *c.Rng) { w.seq(out, seq, r) })
+
+	// part 2: the several-vault world (multi.go) — corpus, then random sequences — and the pure stream
+	nm := c.Budget(56, 1500)
+	mworkers := c.Workers()
+	if mworkers > nm {
+		mworkers = nm
+	}
+	mpool := make(chan *mworld, mworkers)
+	for i := 0; i < mworkers; i++ {
+		mpool <- mkMWorld()
+	}
+	m0 := <-mpool
+	m0.corpus(out)
+	mpool <- m0
+	rm := r.Fork(0x4d554c5449)
+	kapp.RunSeqs(nm, mworkers, rm, func() *mworld { return <-mpool }, func(w *mworld, seq int, r *c.Rng) { w.seq(out, seq, r) })
+	pureStream(out, r.Fork(0x50555245))
 }
